@@ -11,6 +11,7 @@ CONSTANTS
 INVARIANT IssuedAccepted
 INVARIANT OtherRejected
 INVARIANT AcceptSound
+INVARIANT EmptyRejected
 INVARIANT StatusOK
 INVARIANT SafeMethods
 INVARIANT RenderedAccepted
